@@ -792,14 +792,14 @@ def rule_B6(ctx):
 
 DEREF_LIBC = {"strlen": [0], "strcpy": [0, 1], "strcat": [0, 1], "strcmp": [0, 1], "strchr": [0],
               "strrchr": [0], "strstr": [0, 1], "memcpy": [0, 1], "memmove": [0, 1], "strncmp": [0, 1],
-              "atoi": [0], "write": [1], "puts": [0]}
-
-_tol_cache = {}
+              "atoi": [0], "puts": [0]}
+# write(fd, NULL, n) is refused by the kernel (EFAULT): not a memory error of the process
 
 
 def param_tolerates_null(prog, f, idx, depth=0):
     """True when every dereference of parameter idx of f is guarded by a null test."""
     k_ = (f.qname, idx)
+    _tol_cache = prog.__dict__.setdefault("_tol_cache", {})     # per program: scratch copies differ
     if k_ in _tol_cache:
         return _tol_cache[k_]
     _tol_cache[k_] = True     # recursion guard
@@ -1705,9 +1705,53 @@ def _pointee_size(prog, ty):
     return None
 
 
+def _path_prove_store(prog, f, st, alloc, esz):
+    """0 <= index < allocated elements for the store `a[idx] = ..`, over every path to it with
+    the values of small same-file helpers (led_pos ..) substituted per exit: PROVEN, "REFUTED"
+    (a path without unknowns violates it) or None."""
+    from ..bounds import path_states
+    from .. import lin as _lin
+    r = strip_casts(alloc.get("r") or alloc.get("init"))
+    size_e = strip_casts(r["args"][0])
+
+    def inline(call):
+        g = prog.resolve(f, call["fn"]) if call.get("fn") else None
+        if g is None or g.file != f.file or len(list(g.walk())) > 60:
+            return None
+        if any(x["k"] in ("while", "for", "do") for x in g.walk()) or list(stores(g.body)):
+            return None
+        return g
+    try:
+        sts = path_states(f, st["id"], inline=inline, max_paths=3000)
+    except OverflowError:
+        return None
+    if not sts:
+        return None
+    verdict = PROVEN
+    for subst, hyps, items in sts:
+        byid = {f.nodes[x[1]]["id"]: x[2] for x in items if x[0] == "br"}
+        _lin._COND_RES[0] = byid
+        try:
+            idx = linearize(strip_casts(st["l"]["idx"]), subst)
+            E = linearize(size_e, subst)
+        finally:
+            _lin._COND_RES[0] = None
+        if idx is None or E is None:
+            return None
+        flat = [h_ for h_ in hyps if not isinstance(h_, tuple)]
+        a = prove_le(Lin(k=0), idx, hyps)
+        b = prove_le(idx.scale(esz) + Lin(k=esz), E, hyps)
+        if a != PROVEN or b != PROVEN:
+            if "__havoc__" in subst or "__callhavoc__" in subst:
+                verdict = None
+            elif verdict == PROVEN:
+                verdict = "REFUTED"
+    return verdict
+
+
+
 # (function, allocated lvalue) -> writes that are not decided here, with the reason
 B3_EXCEPTIONS = {
-    ("led_render", "off"): "indices are display columns, guarded two-sidedly by explicit range tests",
     ("syn_highlight", "att"): "att[j] ranges over matcher offsets converted by uc_off (R8: offsets <= length)",
     ("ren_position_reorder", "pos"): "pos[off[i]] / indices are values of a permutation (O1)",
     ("ren_position_reorder", "off"): "off[pos[i]]: index is a permutation value (O1)",
@@ -1791,6 +1835,11 @@ def rule_B3(ctx):
                     v = None
                 else:
                     v, hy = prove_index(f, n, ext, E)
+                if v != PROVEN and n["k"] == "bin" and n["l"]["k"] == "sub":
+                    # second engine: all paths to the store, small helpers of the file summarised
+                    pv = _path_prove_store(prog, f, n, an, esz)
+                    if pv == PROVEN:
+                        v = PROVEN
                 if v == PROVEN:
                     n_ok += 1
                     ctx.ok(f.name, "%s within malloc(%s)" % (desc, key(strip_casts(an.get("r") or an.get("init"))["args"][0])[:40]),
